@@ -192,14 +192,62 @@ func pickSome(r *hx.Rng, pool []string, n int) []string {
 // ---- expressions ----------------------------------------------------------
 
 type egen struct {
-	r    *hx.Rng
-	vars map[string]*T // effective environment (after the updates), as T
+	r     *hx.Rng
+	vars  map[string]*T // effective environment (after the updates), as T
 	names []string
 }
 
 var strPool = []string{"", "a", "foo", "os", "x y", "v1.2", "{0}", "OS"}
 var fmtPool = []string{"{0}", "{0} {1}", "{1}", "{{0}} {0}", "{0}{0}", "x", "{2} {0}", "{a}", "{0", "{}", "{01}", "{0} {1} {2}"}
-var jsonPool = []string{`[1,2]`, `{"a":1,"b":"x"}`, `[{"os":"l","v":1},{"os":"w"}]`, `{"include":[{"x":1}]}`, `null`, `true`, `"s"`, `[]`, `{}`, `[1,"a"]`, `[[1],[2]]`, `{"a":{"b":[true]}}`, `[1,`, `{a:1}`, ``, `[1,true,"x"]`, `[{"a":1},{"a":"s"}]`}
+var jsonPool = []string{`[1,2]`, `{"a":1,"b":"x"}`, `[{"os":"l","v":1},{"os":"w"}]`, `{"include":[{"x":1}]}`, `null`, `true`, `"s"`, `[]`, `{}`, `[1,"a"]`, `[[1],[2]]`, `{"a":{"b":[true]}}`, `[1,`, `{a:1}`, ``, `[1,true,"x"]`, `[{"a":1},{"a":"s"}]`,
+	// C08: keys in upper / mixed case, keys that differ only in case (their types are merged in sorted order),
+	// keys whose sorted order differs from the order of the folded keys
+	`{"Foo":1,"BAR":{"Baz":[1],"id":"x"}}`, `{"OS":"l","Ver":1}`, `{"A":1,"a":"x"}`, `{"Os":{"x":1},"oS":{"X":"s","y":true},"b":1}`,
+	`[{"OS":"l"},{"os":1,"Id":2}]`, `{"B":1,"a":2,"C":{"d":null}}`, `{"Foo":[1],"fOO":["a"],"foo":[]}`, `{"X":{"Y":{"Z":1}}}`}
+
+// recase: a random ASCII case variant of a name
+func (g *egen) recase(k string) string {
+	switch g.r.Intn(3) {
+	case 0:
+		return strings.ToUpper(k)
+	case 1:
+		return strings.ToLower(k)
+	}
+	b := []byte(k)
+	for i, c := range b {
+		if g.r.Chance(1, 2) {
+			if 'a' <= c && c <= 'z' {
+				b[i] = c - 32
+			} else if 'A' <= c && c <= 'Z' {
+				b[i] = c + 32
+			}
+		}
+	}
+	return string(b)
+}
+
+var jsonKeyPool = []string{"foo", "bar", "baz", "os", "ver", "a", "b", "c", "d", "x", "y", "z", "id"}
+
+// jsonAccess: fromJSON of a literal followed by accesses along keys that occur in the literals, in any case,
+// as property dereference or as string literal index
+func (g *egen) jsonAccess() string {
+	s := "fromJSON(" + quote(g.r.Pick(jsonPool)) + ")"
+	for i, n := 0, 1+g.r.Intn(3); i < n; i++ {
+		k := g.recase(g.r.Pick(jsonKeyPool))
+		switch g.r.Intn(6) {
+		case 0:
+			s += "[0]"
+		case 1:
+			s += ".*"
+		case 2, 3:
+			s += "[" + quote(k) + "]"
+		default:
+			s += "." + k
+		}
+	}
+	return s
+}
+
 var funcNames = []string{"contains", "startsWith", "endsWith", "format", "join", "toJSON", "fromJSON", "hashFiles", "success", "always", "cancelled", "failure"}
 
 func quote(s string) string { return "'" + strings.ReplaceAll(s, "'", "''") + "'" }
@@ -268,11 +316,14 @@ func (g *egen) path(d int, want int) string {
 					nt = t.Mapped
 				}
 				if c < 5 {
-					if g.r.Chance(1, 10) {
-						k = strings.ToUpper(k)
+					if g.r.Chance(1, 4) {
+						k = g.recase(k)
 					}
 					s += "[" + quote(k) + "]"
 				} else {
+					if g.r.Chance(1, 10) {
+						k = g.recase(k)
+					}
 					s += "." + k
 				}
 				t = nt
@@ -477,8 +528,10 @@ func (g *egen) expr(d int) string {
 	case c < 75:
 		op := g.r.Pick([]string{"&&", "||"})
 		return g.expr(d-1) + " " + op + " " + g.expr(d-1)
-	case c < 80:
+	case c < 78:
 		return "(" + g.expr(d-1) + ")"
+	case c < 80:
+		return g.jsonAccess()
 	case c < 85:
 		// a postfix on a parenthesised / call receiver
 		recv := "(" + g.expr(d-1) + ")"
